@@ -130,9 +130,17 @@ def random_histories(prop, tier, seed):
     # bursts: requests run while the records of the earlier ones are still queued (value frames handed to the log by reference)
     nb = {"C07": (10, 300), "C08": (14, 400), "C16": (0, 0)}[prop][0 if quick else 1]
     scs += [gen_aof.gen_burst(seed, i, kind) for i in range(nb)]
+    if prop == "C08":
+        # crash images taken at aof.flush.enter (records of the batch still in the write buffer) + second epoch with values + third start
+        scs += [gen_aof.gen_preflush(seed, i) for i in range(10 if quick else 150)]
+    if prop == "C07":
+        # the value of a shared key carried by the record of a later, still live holder once its setter's records are gone
+        scs += [gen_aof.gen_carrier(seed, i) for i in range(12 if quick else 300)]
     if prop == "C16":
         # value-less deadline updates of persisted holds (both directions, both units, different ages), then compactions
         scs += [gen_aof.gen_update(seed, i, kind) for i in range(20 if quick else 600)]
+        # compactions that START on the directory an interrupted compaction left behind (partial / complete rewrite.aof.tmp), then one more start
+        scs += [gen_aof.gen_leftover(seed, i) for i in range(10 if quick else 200)]
     return scs
 
 # ------------------------------------------------------------------ self-test (binding demonstration)
@@ -325,6 +333,8 @@ def run(prop, tier, seed):
                        "records_located_in_the_files": stats.get("burst_records", 0), "value_frames_judged_on_disk": stats.get("burst_frames_judged", 0),
                        "image_values_judged": stats.get("burst_image_values_judged", 0), "bursts_not_located": stats.get("bursts_not_located", 0),
                        "burst_histories": sum(1 for sc in scs if any(st.get("op") == "burst" for st in sc["steps"]))},
+            "flush_enter_crash_images_with_second_epoch": stats.get("preflush_images", 0),
+            "keys_not_compared_because_a_record_ends_between_two_starts": stats.get("keys_not_compared_record_ends_between_starts", 0),
             "compaction_deadlines": {"holds_compared_exactly": stats.get("cpt_deadlines_exact", 0)},
             "selftest": stest, "selftest_added_clause": stest2, "driver_shards_retried": retried, "histories_aborted_by_driver": [a.get("name") for a in aborts],
             "evaluations": len(scs), "distinct_nontrivial": len({json.dumps(s["steps"], sort_keys=True) for s in scs}),
@@ -333,6 +343,9 @@ def run(prop, tier, seed):
         out.assumptions = [
             "engine F is sequential: one driver goroutine, virtual clock of the first instance back-dated by (ticks + 2..40) s, persistence queue drained after every step "
             "- except inside a burst step, where the channel goroutines are parked and their wake-up token is withheld until the last request of the burst has returned",
+            "crash / burst / flush-enter / leftover histories give every hold a lifetime of 20 min or more (the recovery phase of one stop point runs on the wall clock); "
+            "comparisons between two recoveries leave out keys with a record whose lifetime ends between the two starts +- 2 s (counted in the evidence); "
+            "the restart clauses take 'now' of a start as the interval between the driver's stamps around it",
             "burst keys (60..63) are used by bursts only; holds of a burst persist at once and outlive every recovery (1800 / 3600 s)",
             "compactions of the first instance are awaited after every step; requests 'during' a compaction are issued from inside the aof.fs hooks (deterministic interleaving)",
             "start-up compaction: held until the replay has drained, except in the C16 histories marked faithful (free-running, as LoadAndInit starts it; regression of A29, fixed by 15834ac)",
